@@ -119,6 +119,19 @@ def run(ctx: Ctx, extended: bool = False) -> None:
         ref_reset = jreset(key)
         ref_step = jstep(s, a)
         variants = {}
+        # the state is ONE pytree type: what reset returns and what step returns must have the same structure, shapes and dtypes (for every
+        # input — eval_shape), otherwise lax.scan / cond / vmap-stacking over a rollout that starts at reset cannot even be traced
+        def _struct(t):
+            return [(jax.tree_util.keystr(p), tuple(x.shape), str(x.dtype)) for p, x in jax.tree_util.tree_flatten_with_path(t)[0]]
+        st_reset = _struct(jax.eval_shape(env.reset, key)[0])
+        st_step = _struct(jax.eval_shape(env.step, ref_reset[0], a)[0])
+        st_step2 = _struct(jax.eval_shape(env.step, ref_step[0], a)[0])
+        ctx.evaluations += 1
+        if st_reset != st_step or st_step != st_step2:
+            diff = [(x, y) for x, y in zip(st_reset, st_step) if x != y] or [(x, y) for x, y in zip(st_step, st_step2) if x != y] or [("structure", "")]
+            ctx.fail(e.cid, "state_type_unstable", f"the state returned by step does not have the type of the state returned by reset (first difference {diff[0]}): "
+                     "a lax.scan rollout from the reset state cannot be traced while per-call execution works", {**info, "difference": [list(map(str, d)) for d in diff[:4]]}, {"cls": e.cls})
+            continue
 
         def record(name, got, ref):
             nonlocal programs
